@@ -496,7 +496,15 @@ func (vc *VC) execBuiltin(ins *ssa.Call, f *ssa.Builtin) {
 	for _, a := range cc.Args {
 		args = append(args, vc.val(a))
 	}
-	mkInt := func(t string) *Val { return vc.bv(t, 64, true, types.Typ[types.Int]) }
+	mkInt := func(t string) *Val {
+		if vc.intMode {
+			if n, _, ok := asLit(t); ok {
+				return vc.bv(n.String(), 64, true, types.Typ[types.Int])
+			}
+			return vc.bv(app("bv2nat", t), 64, true, types.Typ[types.Int])
+		}
+		return vc.bv(t, 64, true, types.Typ[types.Int])
+	}
 	switch f.Name() {
 	case "len":
 		a := args[0]
